@@ -53,7 +53,11 @@ def basis(q: tuple) -> list[tuple[str, Any]]:
     f = sp.Function("f")(q1, q2, q3)
     return [("1", sp.S.One), ("q1", q1), ("q2", q2), ("q3", q3), ("q1*q2", q1 * q2), ("q1*q3", q1 *
         q3), ("q2*q3", q2 * q3), ("q1**2", q1**2), ("q2**2", q2**2), ("q3**2", q3**2),
-        ("sin(q2)*q1", sp.sin(q2) * q1), ("f(q)", f)]
+        ("sin(q2)*q1", sp.sin(q2) * q1), ("f(q)", f),
+        # nested powers of coordinates that take negative values at the lattice points: not to be
+        # "denested" as if every symbol were positive
+        ("sqrt(q3**2)", sp.sqrt(q3**2)), ("(q2**2)**(3/2)", (q2**2)**sp.Rational(3, 2)),
+        ("q1*sqrt(q2**2*q3**2)", q1 * sp.sqrt(q2**2 * q3**2))]
 
 
 def zero_at_points(system: str, q: tuple, e: Any) -> bool:
